@@ -23,7 +23,9 @@ pub fn run(ctx: &Ctx) -> Outcome {
         }
     }
     out.merge(crate::props::sockets::hostile_socket(ctx));
-    out.rule = "C10: from each of 8 connection states ALL sequences of <= depth packets of a hostile alphabet (absurd ack/seq/window values, SACKs of length 0..36, oversize payloads, types illegal in the state) mixed with benign application actions; no panic (catch_unwind), no Bug* error, buffering within the configured bounds".into();
+    // the byte level: every structurally enumerated byte string (C11's domain) through both parsers, judged for panics only
+    out.merge(crate::exhaust::wire::totality(ctx));
+    out.rule = "C10: from each of 8 connection states ALL sequences of <= depth packets of a hostile alphabet (absurd ack/seq/window values, SACKs of length 0..36, oversize payloads, types illegal in the state) mixed with benign application actions; no panic (catch_unwind), no Bug* error, buffering within the configured bounds; plus the byte level: both parsers on every structurally enumerated byte string (first bytes, extension-chain shapes with every declared length, every truncation point), no panic".into();
     out.assumptions.push("the connection task runs between bursts of at most 2 datagrams; the dispatcher->connection channel itself is unbounded in the code and a starved connection task is outside what is explored".into());
     out
 }
